@@ -6,6 +6,7 @@ import (
 	"encoding/json"
 	"fmt"
 	"net/netip"
+	"strings"
 	"time"
 
 	"github.com/jwhited/corebgp"
@@ -31,6 +32,12 @@ type c14Case struct {
 	// Prev >= 0: the judged OPEN is the one of a SECOND connection; on the first one the remote
 	// negotiated with hold time Prev and then ended the session with a Cease.
 	Prev int `json:"previous_session_remote_hold"`
+	// PrevEnd (with Prev >= 0): how the first connection ends. "" = Cease in Established (above);
+	// "drop-opensent" = closed after corebgp's OPEN; "drop-openconfirm" = the remote sends its OPEN (hold time
+	// Prev), takes corebgp's KEEPALIVE and closes without answering it; "notif24-opensent" /
+	// "notif24-openconfirm" = NOTIFICATION (2,4) Unsupported Optional Parameter at that point (a protocol error:
+	// the second connection happens after the hold-down).
+	PrevEnd string `json:"previous_connection_end,omitempty"`
 	// Mutate (with Prev >= 0): between the two connections the plugin edits the value octets of its one
 	// capability list in place; the second OPEN carries the edited octets.
 	Mutate bool `json:"plugin_edits_values_in_place,omitempty"`
@@ -73,7 +80,7 @@ func c14Run(cs c14Case, trace bool) (rule, msg string, representable bool, rep m
 		}
 	}
 	s := &Sess{LocalAS: cs.LocalAS, RemoteAS: 65002, RouterID: cs.RouterID, RouterAddr: routerAddr, Hold: cs.Hold, Inbound: cs.Inbound,
-		Reconnect: cs.Prev >= 0, Horizon: 20 * time.Second,
+		Reconnect: cs.Prev >= 0, Horizon: c14Horizon(cs), ReconnectAfter: c14ReconnectAfter(cs),
 		Plugin: func(w *world.World) *world.Plugin {
 			p := &world.Plugin{W: w, Peer: "P1", NoYield: true, Caps: caps}
 			if cs.Mutate {
@@ -98,6 +105,23 @@ func c14Run(cs c14Case, trace bool) (rule, msg string, representable bool, rep m
 			return p
 		},
 		Script: func(w *world.World, r *world.Remote) {
+			if cs.Prev >= 0 && !second && cs.PrevEnd != "" {
+				second = true
+				if _, ok := r.Expect(wire.TypeOpen); ok {
+					switch cs.PrevEnd {
+					case "drop-opensent":
+					case "notif24-opensent":
+						r.Send(wire.Notification(2, 4, nil))
+					case "drop-openconfirm", "notif24-openconfirm":
+						r.Send(wire.Open(65002, uint16(cs.Prev), 0x0a000002))
+						if _, ok := r.Expect(wire.TypeKeepalive); ok && cs.PrevEnd == "notif24-openconfirm" {
+							r.Send(wire.Notification(2, 4, nil))
+						}
+					}
+				}
+				r.C.Close()
+				return
+			}
 			if cs.Prev >= 0 && !second {
 				second = true
 				if _, ok := r.Expect(wire.TypeOpen); ok {
@@ -189,6 +213,16 @@ func c14Run(cs c14Case, trace bool) (rule, msg string, representable bool, rep m
 	}
 	return "", "", representable, rep
 }
+
+// a first connection that ends in a protocol error is followed by a hold-down of 60 s
+func c14ReconnectAfter(cs c14Case) time.Duration {
+	if strings.HasPrefix(cs.PrevEnd, "notif24") {
+		return 70 * time.Second
+	}
+	return 0
+}
+
+func c14Horizon(cs c14Case) time.Duration { return 20*time.Second + 2*c14ReconnectAfter(cs) }
 
 func c14CapLists(depth int) [][]c14Cap {
 	var alpha []c14Cap
@@ -307,6 +341,19 @@ func c14Check(c *harness.Ctx) {
 						if !run(c14Case{LocalAS: 65001, Hold: h, RouterID: 0x0a000001, Inbound: inbound, Prev: prev, Caps: caps}) {
 							return
 						}
+					}
+				}
+			}
+		}
+	}
+	// ... and after a first connection that ended before the session was up: in OpenSent or OpenConfirm, by
+	// the remote's close or by its NOTIFICATION (then the second connection follows the hold-down)
+	for _, end := range []string{"drop-opensent", "drop-openconfirm", "notif24-opensent", "notif24-openconfirm"} {
+		for _, h := range []int{90, 9, 0} {
+			for _, prev := range []int{3, 0, 90} {
+				for _, inbound := range []bool{true, false} {
+					if !run(c14Case{LocalAS: 65001, Hold: h, RouterID: 0x0a000001, Inbound: inbound, Prev: prev, PrevEnd: end, Caps: small[len(small)-1]}) {
+						return
 					}
 				}
 			}
